@@ -2,6 +2,8 @@
 import Mappy.Wire
 import Mappy.Model.CIDict
 import Mappy.Model.DictUtils
+import Mappy.Model.Printer
+import Mappy.Gen.Props
 open Lean Mappy Mappy.Wire
 
 namespace Mappy.Driver
@@ -67,10 +69,50 @@ def decodePath (j : Json) (k : String) : Except String (List DictUtils.PathEl) :
     | .num n => pure (.idx n.mantissa)
     | _ => throw "bad path element"
 
+/-! ### printer -/
+def getChar (j : Json) (k : String) : Except String Char := do
+  match ← getStr j k with
+  | [c] => pure c
+  | _ => throw s!"field {k} is not one character"
+
+def getOpts (j : Json) : Except String Printer.Opts := do
+  let o ← match j.getObjVal? "opts" with
+    | .ok o => pure o
+    | .error _ => throw "missing opts"
+  pure { indent := ← getNat o "indent", spacer := ← getStr o "spacer", quote := ← getChar o "quote",
+         newline := ← getStr o "newlinechar", endComment := ← getBool o "end_comment",
+         align := ← getBool o "align_values", sepComplex := ← getBool o "separate_complex_types" }
+
+def resS : Res Str → Json := ofRes (fun s => Json.str (l2s s))
+
+def quoterOp (req : Json) : Except String Json := do
+  let q ← getChar req "quote"
+  let s ← getStr req "s"
+  let b (x : Bool) : Json := .bool x
+  let t (x : Str) : Json := .str (l2s x)
+  match l2s (← getStr req "fn") with
+  | "add_quotes" => pure (t (Quoter.addQuotes q s))
+  | "add_altquotes" => pure (t (Quoter.addQuotes (Quoter.altquote q) s))
+  | "in_quotes" => pure (b (Quoter.inQuotes q s))
+  | "escape_quotes" => pure (t (Quoter.escapeQuotes q s))
+  | "remove_quotes" => pure (t (Quoter.removeQuotes q s))
+  | "in_brackets" => pure (b (Quoter.inBrackets s))
+  | "in_parenthesis" => pure (b (Quoter.inParenthesis s))
+  | "in_braces" => pure (b (Quoter.inBraces s))
+  | "in_slashes" => pure (b (Quoter.inSlashes s))
+  | "standardise_quotes" => pure (t (Quoter.standardiseQuotes q s))
+  | x => throw s!"bad quoter fn {x}"
+
 def handle (op : String) (req : Json) : Except String Json := do
   match op with
   | "echo" => pure (ofJ (← getJ req "v"))
   | "cidict" => cidict req
+  | "pp" => pure (resS (Printer.pprint (← getOpts req) Gen.props (← getJ req "d")))
+  | "format_value" =>
+    match cellOf Gen.props (← getStr req "type") (← getStr req "attr") with
+    | none => pure (Json.mkObj [("err", .str "IOError")])
+    | some p => pure (resS (Printer.formatValue (← getChar req "quote") (← getStr req "attr") p (← getJ req "value")))
+  | "quoter" => quoterOp req
   | "update" => pure (resJ (DictUtils.update (← getBool req "ci") (← getBool req "ow") (← getJ req "d1") (← getFields req "d2")))
   | "find" => pure (resJ (DictUtils.find (← getBool req "ci") (← getStr req "key") (← getJ req "value") (← getList req "lst")))
   | "findall" => pure (resL (DictUtils.findall (← getBool req "ci") (← getStr req "key") (← getJ req "value") (← getList req "lst")))
